@@ -24,6 +24,7 @@ extern "C" void yakushima_verif_event(int ev, const void* ptr, unsigned long tag
 #define YAKUSHIMA_VERIF_SPIN 2  // about to wait for another thread (pause / sleep inside a lock or stable-version loop)
 #define YAKUSHIMA_VERIF_RETRY 3 // about to take the back edge of an optimistic retry loop
 #define YAKUSHIMA_VERIF_SLEEP 4 // about to sleep (epoch / gc period)
+#define YAKUSHIMA_VERIF_LAYER 5 // about to descend into the next trie layer (progress marker, not a wait)
 // events
 #define YAKUSHIMA_VERIF_EV_RETIRE 0  // object handed to the garbage collector (tag = epoch)
 #define YAKUSHIMA_VERIF_EV_RECLAIM 1 // object about to be released by the garbage collector
